@@ -443,33 +443,15 @@ type outcome struct {
 const recvTimeout = 10 * time.Second
 
 func runOnce(c caseT, e expectT, stream []byte) outcome {
-	ln, err := net.Listen("tcp", "127.0.0.1:0")
-	if err != nil {
-		panic(fmt.Sprintf("infrastructure: listen: %v", err))
-	}
-	defer ln.Close()
-	type accT struct {
-		c   net.Conn
-		err error
-	}
-	acc := make(chan accT, 1)
-	go func() {
-		cn, err := ln.Accept()
-		acc <- accT{cn, err}
-	}()
-	w, err := net.Dial("tcp", ln.Addr().String())
-	if err != nil {
-		panic(fmt.Sprintf("infrastructure: dial: %v", err))
-	}
+	w, rc := tcpPair()
 	defer w.Close()
-	a := <-acc
-	if a.err != nil {
-		panic(fmt.Sprintf("infrastructure: accept: %v", a.err))
-	}
-	defer a.c.Close()
-	w.(*net.TCPConn).SetNoDelay(true)
+	// the receiving end is closed last and with a reset: the writer's socket then
+	// does not linger in TIME_WAIT (tens of thousands of cases would use up the ports)
+	defer func() { rc.SetLinger(0); rc.Close() }()
+	a := struct{ c *net.TCPConn }{rc}
+	w.SetNoDelay(true)
 
-	conn, err := uacp.NewConn(a.c.(*net.TCPConn), &uacp.Acknowledge{ReceiveBufSize: c.R, SendBufSize: c.R, MaxChunkCount: 0, MaxMessageSize: 0})
+	conn, err := uacp.NewConn(a.c, &uacp.Acknowledge{ReceiveBufSize: c.R, SendBufSize: c.R, MaxChunkCount: 0, MaxMessageSize: 0})
 	if err != nil {
 		return outcome{msg: fmt.Sprintf("NewConn: %v", err)}
 	}
@@ -667,6 +649,47 @@ func runOnce(c caseT, e expectT, stream []byte) outcome {
 		}
 	}
 	return out
+}
+
+// tcpPair returns a connected loopback pair (dialling side, accepted side). It
+// waits while the host has no free port (other checks run in parallel).
+func tcpPair() (*net.TCPConn, *net.TCPConn) {
+	var lastErr error
+	for i := 0; i < 120; i++ {
+		if i > 0 {
+			time.Sleep(time.Second)
+		}
+		ln, err := net.Listen("tcp", "127.0.0.1:0")
+		if err != nil {
+			lastErr = err
+			continue
+		}
+		type accT struct {
+			c   net.Conn
+			err error
+		}
+		acc := make(chan accT, 1)
+		go func() {
+			cn, err := ln.Accept()
+			acc <- accT{cn, err}
+		}()
+		w, err := net.DialTimeout("tcp", ln.Addr().String(), 10*time.Second)
+		if err != nil {
+			ln.Close()
+			<-acc
+			lastErr = err
+			continue
+		}
+		a := <-acc
+		ln.Close()
+		if a.err != nil {
+			w.Close()
+			lastErr = a.err
+			continue
+		}
+		return w.(*net.TCPConn), a.c.(*net.TCPConn)
+	}
+	panic(fmt.Sprintf("infrastructure: no loopback connection: %v", lastErr))
 }
 
 // segmentation facts for the non-triviality rule
